@@ -551,7 +551,12 @@ func makePlan(sh Shape, tier string) plan {
 		singleLimit, maxM = 1<<16, 4
 		budget = 4e8
 	}
-	if sh.Max <= singleLimit {
+	// every value alone only while (number of values x slots walked) stays affordable
+	singleWork := int64(1e8)
+	if tier == "thorough" {
+		singleWork = 17e8
+	}
+	if sh.Max <= singleLimit && (sh.Max-sh.Min+1)*p.slots <= singleWork {
 		p.singlesAll = true
 		for v := sh.Min; v <= sh.Max; v++ {
 			p.singles = append(p.singles, v)
@@ -812,7 +817,7 @@ func Run(r *rep.Report, tier string) {
 	r.Set("work_units_skipped_by_deadline", skipped)
 	r.Set("exhaustive", skipped == 0)
 	r.Set("rule", "shapes: min in {1,2,3,8,1000} x sigfigs 1..5 x max around subBucketCount*unit*2^k (exact, +-1, non-boundary); "+
-		"per shape: every v in [min,max] alone when max <= 2^14 (thorough 2^16) else the full boundary set (powers of two +-1, 3/2 powers, bucket and sub-bucket edges); "+
+		"per shape: every v in [min,max] alone when max <= 2^14 (thorough 2^16) and values*slots <= 1e8 (thorough 1.7e9), else the full boundary set (powers of two +-1, 3/2 powers, bucket and sub-bucket edges); "+
 		"all multisets of size 2..m over the <=12-value core boundary set, m = 3 (thorough 4) reduced per shape by a slot-visit budget (never below pairs over 6 values); "+
 		"heavy duplicates RecordValues(v,n) n in {1000,1e6} and ordered pairs with counts {1:999, 1:1e6, 5e5:5e5, 3:2}; "+
 		"quantiles: 100*k/total for every rank (all ranks when total<=8, run edges otherwise), 0.001, 50, 99.999, 100; "+
